@@ -24,7 +24,7 @@ import (
 
 // C16 — regex functions match Go regexp; pattern cache is exact, bounded, thread-safe.
 
-const ruleC16 = "rapid regex: (s, p, r) with p from a regex grammar (literals, classes, '.', * + ? {m,n}, capturing groups up to 12 so that $10 vs $1 matters, non-capturing groups, alternation, anchors, (?i)), s over a small alphabet, sometimes with multi-byte characters or with characters a lexer might skip or fold (U+FEFF, U+00A0, U+200B, U+2028, U+0085, U+1F600; also in p and r) (a literal, the string-value of a node, or - for the empty string - the empty node-set), r made of literal characters and $n with 1 <= n <= groups, sometimes directly followed by a digit or a letter; plus constant invalid patterns, plus 'pair' cases: matches() with two resembling patterns (suffix/prefix added, one character changed, upper-cased, or independent) in one expression, each answer belonging to its own pattern, plus 'dynamic' cases: 2-5 items carrying their own subject, pattern, replacement and (precomputed) expected result as attributes, judged by one compiled //i[matches(@s, string(@p))] / //i[replace(@s, string(@p), string(@r)) = @e]. Oracle: matches(s,p) = regexp.MustCompile(p).MatchString(s); replace(s,p,r) = ReplaceAllString with every $n read as group n (longest valid group number), cross-checked by a manual expansion from FindAllStringSubmatchIndex; an invalid constant pattern in matches() is a Compile error. rapid cache histories: a cache from NewLoadingCache with capacity 0..5 (one case in six: 9..17 or 31..33, filled first) and a counting, sometimes-failing load function; actions get(key) over a key alphabet larger than the capacity, swapping xpath.RegexpCache for a small custom cache while matches()/replace() are evaluated, and (race build) a block of g goroutines x keys. Invariants after every step: the value returned is the load of exactly the requested key; entries <= capacity when capacity > 0; a cached key is answered without loading and with the stored value; a missing key is loaded exactly once; a failed load is not remembered (the next get loads again); no data race. Non-trivial: regex case with >= 1 group reference or a match; history that crosses the capacity boundary (a reset happened) or contains a failed load followed by a retry; distinct by (s,p,r) / (capacity, history)."
+const ruleC16 = "rapid regex: (s, p, r) with p from a regex grammar (literals, classes, '.', * + ? {m,n}, capturing groups up to 12 so that $10 vs $1 matters, non-capturing groups, alternation, anchors, (?i)), s over a small alphabet, sometimes with multi-byte characters or with characters a lexer might skip or fold (U+FEFF, U+00A0, U+200B, U+2028, U+0085, U+1F600; also in p and r) (a literal, the string-value of a node, or - for the empty string - the empty node-set), r made of literal characters and $n with 1 <= n <= groups, sometimes directly followed by a digit or a letter; plus constant invalid patterns, plus 'pair' cases: matches() with two resembling patterns (suffix/prefix added, one character changed, upper-cased, or independent) in one expression, each answer belonging to its own pattern, plus 'dynamic' cases: 2-5 items carrying their own subject, pattern, replacement and (precomputed) expected result as attributes, judged by one compiled //i[matches(@s, string(@p))] / //i[replace(@s, string(@p), string(@r)) = @e] / //i[replace(@s, 'first item's pattern', string(@r)) = @f]. Oracle: matches(s,p) = regexp.MustCompile(p).MatchString(s); replace(s,p,r) = ReplaceAllString with every $n read as group n (longest valid group number), cross-checked by a manual expansion from FindAllStringSubmatchIndex; an invalid constant pattern in matches() is a Compile error. rapid cache histories: a cache from NewLoadingCache with capacity 0..5 (one case in six: 9..17 or 31..33, filled first) and a counting, sometimes-failing load function; actions get(key) over a key alphabet larger than the capacity, swapping xpath.RegexpCache for a small custom cache while matches()/replace() are evaluated, and (race build) a block of g goroutines x keys. Invariants after every step: the value returned is the load of exactly the requested key; entries <= capacity when capacity > 0; a cached key is answered without loading and with the stored value; a missing key is loaded exactly once; a failed load is not remembered (the next get loads again); no data race. Non-trivial: regex case with >= 1 group reference or a match; history that crosses the capacity boundary (a reset happened) or contains a failed load followed by a retry; distinct by (s,p,r) / (capacity, history)."
 
 var (
 	uC16Regex = harness.NewUnit("C16", "rapid-regex", ruleC16)
@@ -420,6 +420,13 @@ func c16Dynamic(rt *rapid.T) {
 		}
 		r.Kids = append(r.Kids, el)
 	}
+	// @f: what the item's subject and replacement give under the FIRST item's pattern - for the
+	// expression that holds that pattern as a literal and takes only the replacement from each item
+	re0 := regexp.MustCompile(items[0].p)
+	for i, el := range r.Kids {
+		tmpl, _ := expandTemplate(items[i].r, re0.NumSubexp())
+		el.Attrs = append(el.Attrs, &xdoc.Node{Kind: xpath.AttributeNode, Local: "f", Value: re0.ReplaceAllString(items[i].s, tmpl)})
+	}
 	doc := xdoc.NewDoc(root)
 	var all, emptyMatchAttrs []int
 	for i, el := range r.Kids {
@@ -445,6 +452,9 @@ func c16Dynamic(rt *rapid.T) {
 		{"//i[replace(t[@k][1], string(@p), string(@r)) = @e][matches(t[@k], string(@p))]", wantMatch},
 		// the candidates are ATTRIBUTES: an attribute has no attributes, the subject @p is the
 		// empty node-set, i.e. the empty string, whatever attributes stand next to the candidate
+		// a literal pattern, the replacement from each item: nothing prepared "once, because the
+		// pattern is constant" may depend on the first item
+		{"//i[replace(@s, '" + items[0].p + "', string(@r)) = @f]", all},
 		{"//i/@s[matches(@p, string(../@p))]", emptyMatchAttrs},
 		{"//i/@s[matches(@*, string(../@p))]", emptyMatchAttrs},
 	} {
